@@ -262,7 +262,7 @@ def main(argv=None):
     for nm, res in (("InitCond", res_a), ("InitCond(fixed)", res_f), ("CompartmentFlow", res_c)):
         if res.violation:
             chk.violation("spec|%s|%s" % (nm, res.violation[:60]), "TLC: " + res.violation, {"spec": nm})
-    if res_a.coverage.get("Emit", (0, 0))[0] != len(scen_all) or not scen_all:
+    if res_a.coverage.get("Emit", (0, 0))[0] != len(scen_all) or res_a.distinct != 2 * len(scen_all) or not scen_all:
         raise common.MachineryFailure("InitCond emitted %d scenarios, coverage says %r" % (len(scen_all), res_a.coverage.get("Emit")))
     if res_c.coverage.get("Flow", (0, 0))[0] == 0:
         raise common.MachineryFailure("vacuous CompartmentFlow run: Flow never taken")
